@@ -374,6 +374,25 @@ func searchC16() {
 					}
 					return s1.GetIndex() == s2.GetIndex(), fmt.Sprintf("Lunar.GetTimeNineStar %d, LunarTime.GetNineStar %d", s1.GetIndex(), s2.GetIndex()), "equal"
 				})
+				// call history: the stars of a moment are fixed by the date, the slot and the year/month convention passed in — not by
+				// the day-boundary school selected on the lunar date's shared eight-character object (the two schools differ from 23:00 on,
+				// so the probe runs on the late-evening moments): whichever day's branch governs 23:00–23:59, ONE moment has ONE hour star
+				if t.h == 23 {
+					c.chk("star-depends-on-eightchar-school", in+" after GetEightChar().SetSect(1)", func() (bool, string, string) {
+						vec := func() string {
+							return fmt.Sprintf("hour %d year %d/%d/%d month %d/%d/%d", l.GetTimeNineStar().GetIndex(),
+								l.GetYearNineStarBySect(1).GetIndex(), l.GetYearNineStarBySect(2).GetIndex(), l.GetYearNineStarBySect(3).GetIndex(),
+								l.GetMonthNineStarBySect(1).GetIndex(), l.GetMonthNineStarBySect(2).GetIndex(), l.GetMonthNineStarBySect(3).GetIndex())
+						}
+						before := vec()
+						ec := l.GetEightChar()
+						old := ec.GetSect()
+						ec.SetSect(1)
+						after := vec()
+						ec.SetSect(old)
+						return before == after, after, before + " (before the setter call)"
+					})
+				}
 			}
 			// ---- day star: once per day, plus a second look at another time of some days
 			// (GetDayNineStar recomputes two year tables per call: at the quick tier every day is looked at in the windows
